@@ -14,6 +14,10 @@ accessor for one class on any diagram — source or derived view, in any order. 
 per-class accessors (`get_out_edges`, `get_outgoing_relations`, `get_associations_with_condition`,
 `get_outgoing/incoming_neighbors_with_relation_type`) are read for every class, original first or derived views
 first (`(final b)`), and must report exactly that diagram's own graph (`R[...]` lists the ones that do not).
+Generic bases (`(generic …)`, `(gsub …)`): `class C0(Generic[T])`, `class C1(C0[int])`, `class C2(C0[T])`, plain
+subclasses of those; the model sees `__bases__` only. Twin diagrams (`(twin t)`, 2-module layout): in the same process
+further diagrams are built from the same m0 class objects and same-named m1 classes of a copy of m1 — every diagram
+must mirror its own classes, so all of them must look like the main one.
 
 Ground truth never comes from the code under test: the Lean driver computes `spec=` from the generating terms."""
 from __future__ import annotations
@@ -61,10 +65,13 @@ ASSUMPTIONS = [
     "dataclasses.fields: inherited fields first (bases right to left, no diamonds generated), then own fields",
     "rustworkx PyDiGraph: edge_list() in insertion order; get_edge_data/remove_edge pick the most recently added "
     "parallel edge; graph.copy() is independent of the original",
+    "fields annotated with a TypeVar (`x: T` in a Generic class) are not generated: a TypeVar is not a term of the "
+    "annotation grammar (observed: the endpoint is the TypeVar itself, is_enum raises TypeError)",
     "field names are unique in a case, every field has a default, no Role classes, no bare containers, no Dict / "
     "FrozenSet / Any annotations (outside the supported grammar: container_types names the supported containers)",
 ]
-RULE = ("small-scope exhaustive families (every wrapper form x leaf x quoting on a two-class world; every pair of "
+RULE = ("small-scope exhaustive families (generic bases Generic[T] / C0[arg] / plain subclasses x class lists; twin "
+        "diagrams sharing class objects in one process; every wrapper form x leaf x quoting on a two-class world; every pair of "
         "wrappers; inheritance shapes x class-list orders x sub-diagram sequences) plus seeded random programs from "
         "the annotation grammar; every case builds the diagram in the given and in the reversed class order; "
         "non-trivial = the specification demands at least one edge; distinct by case text")
@@ -137,7 +144,15 @@ def _ann_of(s):
 class Prog:
     """python-side structured form of a case"""
 
-    def __init__(self, future=False, mods=1, imp=0, enums=0, defs=None, modof=None, order=None, ops=None, final=0):
+    def __init__(self, future=False, mods=1, imp=0, enums=0, defs=None, modof=None, order=None, ops=None, final=0,
+                 generic=None, gsub=None, twin=0):
+        # rendering only (the Lean side sees `__bases__`): classes declared `Generic[T]`, and for a class with a generic
+        # base the type argument it writes: "T" (stays generic), "int", "str" or "C<n>"; no entry = the bare base
+        self.generic: List[int] = list(generic or [])
+        self.gsub: Dict[int, str] = dict(gsub or {})
+        # 2-module layout only: further diagrams in the same process whose m1 classes are same-named *twins*
+        # (0 none, 1 twin diagram first, 2 main first, 3 twin, main, another twin)
+        self.twin = twin
         self.final = final  # 0: accessors are read original-first at the end, 1: derived views first
         self.future = future
         self.mods = mods
@@ -164,7 +179,9 @@ class Prog:
             else:
                 ops.append(f"({op[0]} {op[1]} {'T' if op[2] else 'F'})")
         return (f"(cd (future {1 if self.future else 0}) (mods {self.mods}) (imp {self.imp}) (enums {self.enums}) "
-                f"(final {self.final}) "
+                f"(final {self.final}) (twin {self.twin}) "
+                f"(generic{''.join(' ' + str(g) for g in self.generic)}) "
+                f"(gsub{''.join(f' ({c} {v})' for c, v in sorted(self.gsub.items()))}) "
                 f"(modof{''.join(' ' + str(m) for m in self.modof)}) (defs{''.join(' ' + d for d in ds)}) "
                 f"(order{''.join(' ' + str(o) for o in self.order)}) (ops{''.join(' ' + o for o in ops)}))")
 
@@ -193,12 +210,14 @@ class Prog:
         return Prog(future=items.get("future", ["0"])[0] == "1", mods=int(items.get("mods", ["1"])[0]),
                     imp=int(items.get("imp", ["0"])[0]), enums=int(items.get("enums", ["0"])[0]), defs=defs,
                     modof=modof, order=[int(o) for o in items["order"]], ops=ops,
-                    final=int(items.get("final", ["0"])[0]))
+                    final=int(items.get("final", ["0"])[0]), twin=int(items.get("twin", ["0"])[0]),
+                    generic=[int(g) for g in items.get("generic", [])],
+                    gsub={int(x[0]): x[1] for x in items.get("gsub", [])})
 
     def copy(self) -> "Prog":
         return Prog(self.future, self.mods, self.imp, self.enums,
                     [(c, list(b), list(f)) for c, b, f in self.defs], list(self.modof), list(self.order),
-                    list(self.ops), self.final)
+                    list(self.ops), self.final, list(self.generic), dict(self.gsub), self.twin)
 
 
 def strip_fwd(a):
@@ -305,7 +324,23 @@ def _contains_fwd(a) -> bool:
 
 
 HEADER = ("import enum\nfrom dataclasses import dataclass\nfrom datetime import datetime\n"
-          "from typing import Optional, List, Set, Tuple, Sequence, Type, Union, TYPE_CHECKING\n")
+          "from typing import Optional, List, Set, Tuple, Sequence, Type, Union, TYPE_CHECKING, Generic, TypeVar\n")
+
+
+def _render_bases(p: Prog, cid: int, bases: List[int]) -> str:
+    """`(C1[int], C2, Generic[T])`: a generic base is subscripted with the class' type argument, if it has one"""
+    parts = []
+    arg = p.gsub.get(cid)
+    used = False
+    for b in bases:
+        if b in p.generic and arg is not None and not used:
+            parts.append(f"C{b}[{arg}]")
+            used = True
+        else:
+            parts.append(f"C{b}")
+    if cid in p.generic and not (used and arg == "T"):
+        parts.append("Generic[T]")
+    return "(" + ", ".join(parts) + ")" if parts else ""
 
 
 def render(p: Prog) -> Dict[str, str]:
@@ -319,20 +354,27 @@ def render(p: Prog) -> Dict[str, str]:
         if m == 0:
             if nmods == 2 and others:
                 src += "if TYPE_CHECKING:\n    from .m1 import " + ", ".join(others) + "\n"
+            if p.generic:
+                src += 'T = TypeVar("T")\n'
             for e in range(p.enums):
                 src += f"\n\nclass E{e}(enum.Enum):\n    A = 1\n    B = 2\n"
         else:
-            names = others + [f"E{e}" for e in range(p.enums)]
+            names = others + [f"E{e}" for e in range(p.enums)] + (["T"] if p.generic else [])
             if names:
                 src += "from .m0 import " + ", ".join(names) + "\n"
         for cid, bases, fields in mine:
-            b = "(" + ", ".join(f"C{x}" for x in bases) + ")" if bases else ""
+            b = _render_bases(p, cid, bases)
             src += f"\n\n@dataclass\nclass C{cid}{b}:\n"
             if not fields:
                 src += "    pass\n"
             for priv, idx, ann in fields:
                 src += f"    {'_f' if priv else 'f'}{idx}: {render_ann(ann, False)} = None\n"
         out[f"m{m}"] = src
+    if nmods == 2:
+        # twins of m1: the same source again, i.e. same-named but different class objects (still subclasses of / referring to
+        # the one and only m0)
+        for t in range({0: 0, 1: 1, 2: 1, 3: 2}.get(p.twin, 0)):
+            out[f"m1t{t}"] = out["m1"]
     return out
 
 
@@ -568,8 +610,27 @@ def _observe(p: Prog, root: str) -> str:
         modof = {d[0]: mo for d, mo in zip(p.defs, p.modof)}
         classes = [getattr(mods[modof[c] if nmods == 2 else 0], f"C{c}") for c in p.order]
         anns = {f"{'_f' if pr else 'f'}{i}": a for _, _, fs in p.defs for pr, i, a in fs}
+
+        def twin_static(t: int) -> str:
+            """a diagram of the same m0 class objects with same-named m1 classes of a twin module"""
+            tm = importlib.import_module(f"{pkg}.m1t{t}")
+            cl = [getattr(tm if modof[c] == 1 else mods[0], f"C{c}") for c in p.order]
+            return _static(ClassDiagram(cl), anns)
+
+        twin = p.twin if nmods == 2 else 0
+        twins: List[str] = []
+        if twin in (1, 3):
+            twins.append(twin_static(0))
         d = ClassDiagram(list(classes))
         static = _static(d, anns)
+        if twin == 2:
+            twins.append(twin_static(0))
+        if twin == 3:
+            twins.append(twin_static(1))
+        for k, ts in enumerate(twins):
+            # same names, same definitions: each diagram must mirror ITS classes, i.e. look exactly like the main one
+            if ts != static:
+                return f"TWIN-DIFFERS main={static} twin{k}={ts}"
         d_rev = ClassDiagram(list(reversed(classes)))
         static_rev = _static(d_rev, anns)
         if static_rev != static:
@@ -699,6 +760,32 @@ def normalize(p: Prog) -> Prog:
         if q.mods == 2 and q.modof[k] == 0:
             bases = [b for b in bases if q.modof[pos[b]] == 0]
         q.defs[k] = (cid, bases, [(pr, i, _quote_fix(q, k, a)) for pr, i, a in fields])
+    # generic declarations: `Generic[T]` roots have no generic base; a type argument needs a generic base; a class type
+    # argument must be nameable where the class statement runs
+    bases_of = {d[0]: d[1] for d in q.defs}
+    gen: List[int] = []
+    gsub: Dict[int, str] = {}
+    for k, (cid, bases, _) in enumerate(q.defs):
+        has_gen_base = any(b in gen for b in bases)
+        arg = q.gsub.get(cid)
+        if has_gen_base and arg is not None:
+            if arg.startswith("C"):
+                try:
+                    n = int(arg[1:])
+                except ValueError:
+                    n = -1
+                ok = n in pos and pos[n] < k and not (q.mods == 2 and q.modof[k] == 0 and q.modof[pos[n]] == 1)
+                arg = arg if ok else "int"
+            elif arg not in ("T", "int", "str"):
+                arg = "int"
+            gsub[cid] = arg
+            if arg == "T":
+                gen.append(cid)  # `class B(G[T])` is generic again
+        elif cid in q.generic and not has_gen_base:
+            gen.append(cid)
+    q.generic, q.gsub = gen, gsub
+    if q.mods != 2:
+        q.twin = 0
     q.order = [o for o in q.order if o in pos]
     if q.mods == 2:
         # every m1 class named (under TYPE_CHECKING) by an m0 class of the diagram is in the diagram: a name that is
@@ -875,6 +962,15 @@ def gen_prog(rng, tags: set) -> Prog:
             p.ops.append(("copy", d))
             nd += 1
     p.final = rng.randrange(2)
+    if rng.random() < 0.3:
+        # generic bases: some roots become `Generic[T]`; classes below a generic class write a type argument or not
+        roots = [i for i in range(n) if not bases[i]]
+        p.generic = [i for i in roots if rng.random() < 0.6]
+        for i in range(n):
+            if bases[i] and rng.random() < 0.6:
+                p.gsub[i] = rng.choice(["int", "str", "T", "T", f"C{rng.randrange(n)}"])
+    if p.mods == 2 and rng.random() < 0.6:
+        p.twin = rng.choice([1, 2, 3])
     if p.future:
         tags.add("future-annotations")
     if p.mods == 2:
@@ -883,7 +979,12 @@ def gen_prog(rng, tags: set) -> Prog:
         tags.add("multiple-bases")
     if any(bases[b] for bs in bases.values() for b in bs):
         tags.add("multi-level")
-    return normalize(p)
+    p = normalize(p)
+    if p.generic:
+        tags.add("generic-bases")
+    if p.twin:
+        tags.add(f"twin-diagrams:{p.twin}")
+    return p
 
 
 def _mk(p: Prog, tags, origin) -> Case:
@@ -1029,11 +1130,83 @@ def _exhaustive_hier(tier: str) -> List[Case]:
     return cases
 
 
+def _exhaustive_generic(tier: str) -> List[Case]:
+    """family (d): `C0(Generic[T])`, `C1(C0[arg])`, plain `C2(C1)`, `C3(C2)`; `C4` = association target / type argument"""
+    cases = []
+    T = 4
+    shapes = {
+        "chain": {0: [], 1: [0], 2: [1], 3: [2]},
+        "fork": {0: [], 1: [0], 2: [1], 3: [1]},
+        "second-base": {0: [], 1: [0], 2: [1, 5], 3: [2]},  # C5: a plain mixin
+        "generic-below": {0: [], 1: [0], 2: [1], 3: [2]},   # with C1(C0[T]) and C2(C1[int])
+    }
+    args = ["int", "T", f"C{T}", None]
+    orders = [[0, 1, 2, 3, 4], [3, 2, 1, 0, 4], [0, 2, 4], [1, 2, 3], [0, 3], [2, 3, 1]]
+    fieldsets = [{}, {0: [("cls", T)]}, {1: [("opt", "typing", ("cls", T))], 2: [("cont", "list", ("cls", 0))]}]
+    for sname, sh in shapes.items():
+        for arg in args:
+            if sname == "generic-below" and arg != "T":
+                continue
+            for order in orders:
+                for fi, fs in enumerate(fieldsets):
+                    for ops in ([], [("sub", 0, False), ("acc", 1, 3, 0)]):
+                        if ops and (fi == 0 or (tier == "quick" and order is not orders[0])):
+                            continue
+                        defs = [(T, [], [(False, 90, ("int",))]), (5, [], [])]
+                        fidx = 0
+                        for c in (0, 1, 2, 3):
+                            fl = []
+                            for a in fs.get(c, []):
+                                fl.append((False, fidx, a))
+                                fidx += 1
+                            defs.append((c, list(sh[c]), fl))
+                        gsub = {1: arg} if arg else {}
+                        if sname == "generic-below":
+                            gsub[2] = "int"
+                        o = list(order) + ([5] if sname == "second-base" and 2 in order else [])
+                        p = Prog(defs=defs, order=o, ops=list(ops), generic=[0], gsub=gsub)
+                        cases.append(_mk(p, {"exh:generic", "generic-bases", "shape:" + sname, f"targ:{arg}"},
+                                         "exhaustive"))
+    return cases
+
+
+def _exhaustive_twins(tier: str) -> List[Case]:
+    """family (e): 2-module programs whose m0 classes name m1 classes under TYPE_CHECKING only, built into two or three
+    diagrams of one process that share the m0 class objects and supply same-named twins of the m1 classes"""
+    cases = []
+    forms = [("cls", 1), ("opt", "typing", ("cls", 1)), ("cont", "list", ("cls", 1)), ("type", ("cls", 1)),
+             ("fwd", ("cont", "set", ("cls", 1))), ("cont", "blist", ("opt", "typing", ("cls", 1)))]
+    for a in forms:
+        for twin in (1, 2, 3):
+            for fut in (False, True):
+                for shape in ("flat", "sub-in-m0", "sub-in-m1"):
+                    if tier == "quick" and fut and shape != "flat":
+                        continue
+                    defs = [(0, [], [(False, 0, a), (False, 1, ("cont", "tuple", ("cls", 1)))]), (1, [], [(False, 2, ("int",))])]
+                    modof = [0, 1]
+                    if shape == "sub-in-m0":
+                        defs.append((2, [0], [(False, 3, ("cls", 1))]))
+                        modof.append(0)
+                    elif shape == "sub-in-m1":
+                        defs.append((2, [0], [(False, 3, ("cls", 0))]))
+                        modof.append(1)
+                    order = [d[0] for d in defs]
+                    for ops in ([], [("sub", 0, False)]):
+                        if ops and shape == "flat":
+                            continue
+                        p = Prog(future=fut, mods=2, imp=twin % 2, defs=defs, modof=modof, order=order, ops=list(ops),
+                                 twin=twin)
+                        cases.append(_mk(p, {"exh:twins", "two-modules", f"twin-diagrams:{twin}"}, "exhaustive"))
+    return cases
+
+
 def generate(rng, tier, n):
     cases: List[Case] = []
     cases += _exhaustive_forms(tier)
     cases += _exhaustive_nested(tier)
     cases += _exhaustive_hier(tier)
+    cases += _exhaustive_generic(tier)
+    cases += _exhaustive_twins(tier)
     for _ in range(n):
         tags: set = set()
         p = gen_prog(rng, tags)
@@ -1138,6 +1311,24 @@ def shrink(case: Case):
         q = p.copy()
         q.mods = 1
         emit(q)
+    if p.twin:
+        for t in (0, 1, 2):
+            if t < p.twin:
+                q = p.copy()
+                q.twin = t
+                emit(q)
+    for g in p.generic:
+        q = p.copy()
+        q.generic = [x for x in p.generic if x != g]
+        emit(q)
+    for c in p.gsub:
+        q = p.copy()
+        del q.gsub[c]
+        emit(q)
+        if p.gsub[c] != "int":
+            q = p.copy()
+            q.gsub[c] = "int"
+            emit(q)
     if p.enums:
         used = [a for d in p.defs for _, _, a in d[2] if "enum" in sx(a)]
         if not used:
